@@ -26,6 +26,8 @@ type Pkg struct {
 	// (what its Validate / Unmarshal helpers consult).
 	SetGlobalTree func(map[string]*yang.Entry)
 	Unmarshal  func([]byte, ygot.GoStruct, ...ytypes.UnmarshalOpt) error
+	// BinaryType is the package's own `Binary` type (wrapper unions accept only it, not []byte)
+	BinaryType reflect.Type
 	Compressed bool
 	Tags       []string
 
